@@ -208,24 +208,23 @@ pub fn fed_immoderate_magnitude(spec: &Spec, vals: &[f64], sym: Symptom) -> bool
         }
         None
     }
-    let probe = |s: &Spec, v: &[f64], sym: Symptom| -> bool { culprit(s, v, sym) != "?" && culprit_is_root(s, v, sym) };
-    let node = match find(spec, vals, sym, &probe) {
-        Some(n) => n,
-        None => return false,
-    };
-    let view_kids: &[Spec] = match node.k {
-        K::Pfe | K::Eft => &node.kids[..1],
-        _ => &node.kids[..],
-    };
-    for k in view_kids {
-        if k.k.arity() == 0 {
-            continue;
+    let _ = (sym, &find);
+    // any proper subtree (view positions) whose stand-alone output leaves the moderate range feeds an
+    // immoderate value to the node above it; everything downstream of that is out of domain
+    fn any_immoderate(spec: &Spec, vals: &[f64], is_root: bool, outputs: &dyn Fn(&Spec, &[f64]) -> Vec<f64>) -> bool {
+        if spec.k.arity() == 0 {
+            return false;
         }
-        if outputs(k, vals).iter().any(|o| o.is_finite() && o.abs() > MAX_NODE_INPUT) {
+        if !is_root && outputs(spec, vals).iter().any(|o| o.is_finite() && o.abs() > MAX_NODE_INPUT) {
             return true;
         }
+        let view_kids: &[Spec] = match spec.k {
+            K::Pfe | K::Eft => &spec.kids[..1],
+            _ => &spec.kids[..],
+        };
+        view_kids.iter().any(|k| any_immoderate(k, vals, false, outputs))
     }
-    false
+    any_immoderate(spec, vals, true, &outputs)
 }
 
 /// does `spec` itself (not one of its view-position subtrees) show the symptom?
